@@ -25,7 +25,7 @@ def models(tier, seed):
     return ms
 
 
-NOCHAIN = {'on': False, 'goto': 0, 'e': 1, 'tag': 0, 'prop': 0, 'double': False}
+NOCHAIN = {'on': False, 'goto': 0, 'e': 1, 'tag': 0, 'prop': 0, 'double': False, 'always': False, 'cnd': 1}
 
 
 def _rand_cfg(rnd, n, m, chains=True, xprob=0.12):
@@ -47,7 +47,10 @@ def _rand_cfg(rnd, n, m, chains=True, xprob=0.12):
             # (an unknown event requested from an entry action is outside the property)
             chain.append({'on': True, 'goto': rnd.choice([0, 0, rnd.randint(1, n)]),
                           'e': rnd.choice(known), 'tag': rnd.randint(6, 9), 'prop': rnd.randint(0, 1),
-                          'double': rnd.random() < 0.12})
+                          'double': rnd.random() < 0.12,
+                          # 'always': requested whatever the data says - also while the FSM is being
+                          # initialised, when conditions are not consulted yet
+                          'always': rnd.random() < 0.15, 'cnd': int(rnd.random() < 0.7)})
         else:
             chain.append(dict(NOCHAIN))
     return {'n': n, 'm': m, 'trans': trans, 'any': any_,
@@ -134,12 +137,12 @@ def execute(stim):
 
     def request(s):
         ch = cfg['chain'][s - 1]
-        if not ch['on'] or not seen().get('chain', 0):
+        if not ch['on'] or not (ch['always'] or seen().get('chain', 0)):
             return False
         fsm = holder['fsm']
         et = edzed.Goto(f's{ch["goto"]}') if ch['goto'] else f'e{ch["e"]}'
         for _ in range(2 if ch['double'] else 1):
-            fsm.event(et, tag=ch['tag'], chain=ch['prop'], cond=1, condf=1, xc=seen().get('xc', 0))
+            fsm.event(et, tag=ch['tag'], chain=ch['prop'], cond=ch['cnd'], condf=ch['cnd'], xc=seen().get('xc', 0))
         return True
 
     def mk_cond(e, f):
@@ -233,11 +236,16 @@ def execute(stim):
     def norm(lg):
         """the order of an instance function and a method of one action is unspecified"""
         lg = list(lg)
-        for i in range(len(lg) - 1):
+        i = 0
+        while i < len(lg) - 1:
             a, b = lg[i], lg[i + 1]
             if (a['k'] == b['k'] and a['k'] in ('cond', 'enter', 'exit') and a['n'] == b['n']
-                    and a['f'] == 0 and b['f'] == 1 and a['tag'] == b['tag']):
-                lg[i], lg[i + 1] = b, a
+                    and a['f'] != b['f'] and a['tag'] == b['tag']):
+                if a['f'] == 0:         # canonical: the instance function first
+                    lg[i], lg[i + 1] = b, a
+                i += 2                  # the two callbacks of ONE action form a pair
+            else:
+                i += 1
         return lg
 
     async def script(circuit, fsm, loop, clock):
